@@ -62,6 +62,7 @@ def handle (line : String) : String :=
     match best with
     | none => "val=- err=notfound puts=[]"
     | some _ => "-"
+  | "findprov" => "closed=1"
   | _ => "bad-op"
 
 /-- verdict on the real result -/
@@ -95,6 +96,24 @@ def verdict (line : String) : String :=
     else if C09.kvOf iw "returned" == "0" then "FAIL the operation hangs"
     else if (kv "n") == "0" && ["providemany", "putmany", "provide", "putvalue", "getvalue"].contains (kv "op") &&
         C09.kvOf iw "err" == "nil" then "FAIL no error although the table is empty"
+    else "ok"
+  | "findprov" =>
+    -- C08 for the accelerated client: the stream closes; nothing is yielded twice; everything yielded was named by the
+    -- local store or by one of the K nearest peers; at most `count` results when a count is given; with no count the
+    -- locally stored providers are all there (which remote answers are processed is up to the "good enough" exit)
+    let n := (kv "n").toNat!
+    let K := (kv "K").toNat!
+    let count := (kv "count").toNat!
+    let nums (t : String) : List Nat := if t == "-" || t == "" then [] else (t.splitOn ".").map String.toNat!
+    let localP := nums (kv "local")
+    let lists := ((kv "provs").splitOn "|").map nums
+    let remote := ((List.range (min K n)).map fun r => lists.getD r []).flatten
+    let got := (splitList (C09.kvOf iw "yield")).map String.toNat!
+    if C09.kvOf iw "closed" != "1" then "FAIL the provider stream was not closed"
+    else if got.eraseDups.length != got.length then "FAIL a provider was yielded twice"
+    else if got.any (fun p => !(localP ++ remote).contains p) then "FAIL a provider nobody named was yielded"
+    else if count > 0 && got.length > count then "FAIL more providers than asked for"
+    else if count == 0 && localP.any (fun p => !got.contains p) then "FAIL a locally stored provider is missing"
     else "ok"
   | "getvalue" =>
     -- a value the validator rejects now must never be returned (C04 for the accelerated client); the value returned
